@@ -305,6 +305,11 @@ func concretise(sc *authScenario, variant int) (*concreteAuth, error) {
 		if ver == "1" && variant%2 == 1 {
 			rv = "absent" // "Should be treated as 1 when the key doesn't exist"
 		}
+		if !isDomainless(ver) && len(addl) == 0 && variant%5 == 4 {
+			// additional_creators has no meaning before the privileged-creator versions: naming ordinary users there
+			// must not change any verdict
+			addl = []string{userIDs["alice"], userIDs["bob"]}
+		}
 		es := eventSpec{Ver: ver, ID: createID, RoomID: createRoom, Type: "m.room.create", StateKey: strp(""),
 			Sender: userIDs["creator"], Content: createContent(!(ver == "11" || isDomainless(ver)), rv, addl), Depth: 1, TS: 1}
 		if isDomainless(ver) {
